@@ -7,12 +7,17 @@ import (
 	"testing"
 
 	"ariga.io/atlas/sql/migrate"
+	"ariga.io/atlas/sql/mysql"
+	"ariga.io/atlas/sql/postgres"
+	"ariga.io/atlas/sql/schema"
 	"ariga.io/atlas/sql/sqlite"
 	"ariga.io/atlas/sql/sqltool"
 	"pgregory.net/rapid"
 
+	"verif/c02"
 	"verif/eng"
 	"verif/ev"
+	"verif/gm"
 	"verif/model"
 )
 
@@ -103,12 +108,25 @@ func checkDown(c DCase) (DOutcome, error) {
 	}
 	plan.Version, plan.Name = "1", "p"
 	out.Reversible = plan.Reversible
+	n, err := checkPlanDown(plan, func(in string) ([]*migrate.Stmt, error) { return (*sqlite.Driver)(nil).ScanStmts(in) })
+	out.Reverses = n
+	if err != nil {
+		return out, err
+	}
+	return out, nil
+}
+
+
+// checkPlanDown: every formatter's down section / rollback lines are exactly the reverse statements (in reverse change order).
+func checkPlanDown(plan *migrate.Plan, scan func(string) ([]*migrate.Stmt, error)) (int, error) {
+	type outT struct{ Reverses int }
+	var out outT
 	// expected: reverse statements of the changes in reverse order
 	var want []string
 	for i := len(plan.Changes) - 1; i >= 0; i-- {
 		rs, err := plan.Changes[i].ReverseStmts()
 		if err != nil {
-			return out, err
+			return out.Reverses, err
 		}
 		want = append(want, rs...)
 	}
@@ -116,7 +134,7 @@ func checkDown(c DCase) (DOutcome, error) {
 	for _, f := range formatters {
 		files, err := f.f.Format(plan)
 		if err != nil {
-			return out, fmt.Errorf("%s: Format: %v", f.name, err)
+			return out.Reverses, fmt.Errorf("%s: Format: %v", f.name, err)
 		}
 		if f.name == "liquibase" {
 			// rollback lines sit next to their change, in change order
@@ -131,18 +149,18 @@ func checkDown(c DCase) (DOutcome, error) {
 				if strings.HasPrefix(l, "--rollback: ") {
 					rb = append(rb, strings.TrimPrefix(l, "--rollback: "))
 				} else if !strings.HasPrefix(l, "--") && strings.TrimSpace(l) != "" && len(rb) > 0 && !strings.HasSuffix(rb[len(rb)-1], ";") {
-					return out, fmt.Errorf("liquibase: a rollback statement continues on a line that is not a rollback comment (%q):\n%s", l, text)
+					return out.Reverses, fmt.Errorf("liquibase: a rollback statement continues on a line that is not a rollback comment (%q):\n%s", l, text)
 				}
 			}
-			rstmts, err := (*sqlite.Driver)(nil).ScanStmts(strings.Join(rb, "\n"))
+			rstmts, err := scan(strings.Join(rb, "\n"))
 			if err != nil {
-				return out, fmt.Errorf("liquibase: rollback lines do not scan: %v\n%s", err, text)
+				return out.Reverses, fmt.Errorf("liquibase: rollback lines do not scan: %v\n%s", err, text)
 			}
 			for _, s := range rstmts {
 				got = append(got, strings.TrimSuffix(s.Text, ";"))
 			}
 			if strings.Join(got, "\x00") != strings.Join(wantL, "\x00") {
-				return out, fmt.Errorf("liquibase: rollback lines are not exactly the reverse statements\n got:  %q\n want: %q\n file:\n%s", got, wantL, text)
+				return out.Reverses, fmt.Errorf("liquibase: rollback lines are not exactly the reverse statements\n got:  %q\n want: %q\n file:\n%s", got, wantL, text)
 			}
 			continue
 		}
@@ -151,21 +169,21 @@ func checkDown(c DCase) (DOutcome, error) {
 			if len(want) == 0 {
 				continue
 			}
-			return out, err
+			return out.Reverses, err
 		}
-		stmts, err := (*sqlite.Driver)(nil).ScanStmts(down)
+		stmts, err := scan(down)
 		if err != nil {
-			return out, fmt.Errorf("%s: down section does not scan: %v\n%s", f.name, err, down)
+			return out.Reverses, fmt.Errorf("%s: down section does not scan: %v\n%s", f.name, err, down)
 		}
 		var got []string
 		for _, s := range stmts {
 			got = append(got, strings.TrimSuffix(s.Text, ";"))
 		}
 		if strings.Join(got, "\x00") != strings.Join(want, "\x00") {
-			return out, fmt.Errorf("%s: the down file is not exactly the reverse statements in reverse order\n got:  %q\n want: %q\n down:\n%s", f.name, got, want, down)
+			return out.Reverses, fmt.Errorf("%s: the down file is not exactly the reverse statements in reverse order\n got:  %q\n want: %q\n down:\n%s", f.name, got, want, down)
 		}
 	}
-	return out, nil
+	return out.Reverses, nil
 }
 
 func genDown(t *rapid.T) DCase {
@@ -195,5 +213,148 @@ func runDownFiles(t *testing.T, col *ev.Collector) {
 		col.Sample("downfiles", c)
 		return err
 	}
-	ev.Rapid(t, col, "downfiles-sqlite", col.N(1500, 150000), genDown, check, knownD)
+	if !ev.Rapid(t, col, "downfiles-sqlite", col.N(1500, 150000), genDown, check, knownD) {
+		return
+	}
+	runDialectDown(t, col)
+}
+
+// GCase: plans of all three dialects (no engine) for the reversible flag and the down files.
+type GCase struct {
+	Dialect  string        `json:"dialect"`
+	Scenario string        `json:"scenario"`
+	Edits    []c02.EditRef `json:"edits"`
+	Indent   string        `json:"indent"`
+}
+
+func checkDialectDown(c GCase) (DOutcome, error) {
+	var out DOutcome
+	base := c02.Base(c.Dialect)
+	edited := base.Clone()
+	for _, e := range c.Edits {
+		if _, err := c02.Apply(c.Dialect, &edited, e); err != nil {
+			return out, fmt.Errorf("harness: %v", err)
+		}
+	}
+	from, err := gm.Build(c.Dialect, base)
+	if err != nil {
+		return out, fmt.Errorf("harness: %v", err)
+	}
+	to, err := gm.Build(c.Dialect, edited)
+	if err != nil {
+		return out, fmt.Errorf("harness: %v", err)
+	}
+	empty := schema.New(base.Name)
+	schema.NewRealm(empty)
+	var changes []schema.Change
+	switch c.Scenario {
+	case "create":
+		changes, err = gm.Differ(c.Dialect).SchemaDiff(empty, to, schema.DiffNormalized())
+	case "drop":
+		changes, err = gm.Differ(c.Dialect).SchemaDiff(from, empty, schema.DiffNormalized())
+	default:
+		changes, err = gm.Differ(c.Dialect).SchemaDiff(from, to, schema.DiffNormalized())
+	}
+	if err != nil {
+		return out, fmt.Errorf("harness: %v", err)
+	}
+	var pl migrate.PlanApplier
+	scan := func(in string) ([]*migrate.Stmt, error) { return (*sqlite.Driver)(nil).ScanStmts(in) }
+	switch c.Dialect {
+	case "mysql":
+		pl = mysql.DefaultPlan
+		scan = func(in string) ([]*migrate.Stmt, error) { return (*mysql.Driver)(nil).ScanStmts(in) }
+	case "postgres":
+		pl = postgres.DefaultPlan
+		scan = func(in string) ([]*migrate.Stmt, error) { return (*postgres.Driver)(nil).ScanStmts(in) }
+	default:
+		pl = sqlite.DefaultPlan
+	}
+	plan, err := pl.PlanChanges(context.Background(), "p", changes, func(o *migrate.PlanOptions) {
+		o.Indent = c.Indent
+		o.SchemaQualifier = new(string)
+	})
+	if err != nil {
+		return out, nil
+	}
+	plan.Version, plan.Name = "1", "p"
+	out.Reversible = plan.Reversible
+	for i, ch := range plan.Changes {
+		rs, err := ch.ReverseStmts()
+		if err != nil {
+			return out, err
+		}
+		if plan.Reversible && len(rs) == 0 && ch.Source != nil {
+			return out, fmt.Errorf("%s: plan is reported reversible but change %d (%T: %s) has no reverse statement", c.Dialect, i, ch.Source, ch.Cmd)
+		}
+		if !plan.Reversible && len(rs) == 0 {
+			out.Reverses = -1
+		}
+	}
+	if !plan.Reversible && out.Reverses != -1 && len(plan.Changes) > 0 {
+		return out, fmt.Errorf("%s: every change has reverse statements but the plan is not reported reversible", c.Dialect)
+	}
+	n, err := checkPlanDown(plan, scan)
+	out.Reverses = n
+	if err != nil {
+		return out, fmt.Errorf("%s: %v", c.Dialect, err)
+	}
+	return out, nil
+}
+
+func genG(t *rapid.T) GCase {
+	d := rapid.SampledFrom([]string{"mysql", "postgres", "sqlite"}).Draw(t, "dialect")
+	c := GCase{Dialect: d, Scenario: rapid.SampledFrom([]string{"create", "drop", "modify", "modify"}).Draw(t, "scenario"), Indent: rapid.SampledFrom([]string{"", "  ", "\t"}).Draw(t, "indent")}
+	if c.Scenario == "modify" {
+		sites := c02.Sites(d, c02.Base(d))
+		perm := rapid.Permutation(sites).Draw(t, "sites")
+		n := rapid.IntRange(1, 6).Draw(t, "nedits")
+		var chosen []c02.Site
+		for _, s := range perm {
+			if len(chosen) == n {
+				break
+			}
+			ok := true
+			for _, x := range chosen {
+				if c02.Conflict(x, s) {
+					ok = false
+				}
+			}
+			if ok {
+				chosen = append(chosen, s)
+				c.Edits = append(c.Edits, s.E)
+			}
+		}
+	}
+	return c
+}
+
+func runDialectDown(t *testing.T, col *ev.Collector) bool {
+	check := func(c GCase) error {
+		out, err := checkDialectDown(c)
+		col.Class(fmt.Sprintf("downfiles/%s/reversible=%v", c.Dialect, out.Reversible))
+		if out.Reverses > 0 {
+			var ks []string
+			for _, e := range c.Edits {
+				ks = append(ks, e.Kind)
+			}
+			col.NonTrivial(fmt.Sprintf("down|%s|%s|%v|%q", c.Dialect, c.Scenario, ks, c.Indent))
+		}
+		col.Sample("downfiles/"+c.Dialect, c)
+		return err
+	}
+	// every single catalogue edit, every dialect
+	for _, d := range []string{"mysql", "postgres", "sqlite"} {
+		for _, sc := range []string{"create", "drop"} {
+			if !ev.Each(col, "downfiles-dialects", GCase{Dialect: d, Scenario: sc, Indent: "  "}, check, ev.Matcher[GCase]{}) {
+				return false
+			}
+		}
+		for _, s := range c02.Sites(d, c02.Base(d)) {
+			if !ev.Each(col, "downfiles-dialects", GCase{Dialect: d, Scenario: "modify", Edits: []c02.EditRef{s.E}, Indent: "  "}, check, ev.Matcher[GCase]{}) {
+				return false
+			}
+		}
+	}
+	return ev.Rapid(t, col, "downfiles-dialects", col.N(1500, 150000), genG, check, ev.Matcher[GCase]{})
 }
